@@ -224,7 +224,8 @@ theorem lowestIdx (prec : Nat) : tickToIndex (lowestTick prec) prec = 0 := by
 
 theorem highestIdx (prec : Nat) (hprec : 10 ^ prec < 2 ^ 300 - 1) :
     tickToIndex (highestTick prec) prec = ((hiIdx prec : Nat) : Int) ∧ 1 ≤ hiIdx prec := by
-  have e : ((2 : Int) ^ 300 - 1) = (((2 ^ 300 - 1 : Nat)) : Int) := by norm_num
+  have eN : (2037035976334486086268445688409378161051468393665936250636140449354381299763336706183397375 : Nat) = 2 ^ 300 - 1 := by decide
+  have e : (2037035976334486086268445688409378161051468393665936250636140449354381299763336706183397375 : Int) = (((2 ^ 300 - 1 : Nat)) : Int) := by rw [← eN]; rfl
   constructor
   · unfold highestTick hiIdx
     rw [e, priceToDownTick_nat prec _ (by omega), tickToIndex_nat prec _ (by omega)]
